@@ -324,6 +324,7 @@ pub fn drive_b(p: &IrqProg, sched: &Schedule, sp: u32) -> (Final, EventLog, Vec<
     let s2 = st.clone();
     let sched2 = sched.clone();
     let stop = rig.to_emu.clone();
+    let targets2: HashMap<u8, u32> = (1..64u8).map(|v| (v, if v == 9 && p.uses_trap { p.labels["crit"] } else { p.labels[&format!("stub{}", v)] })).collect();
     let tick = Box::new(move |cpu: &mut Cpu| {
         let mut s = s2.borrow_mut();
         if s.stopped {
@@ -343,8 +344,17 @@ pub fn drive_b(p: &IrqProg, sched: &Schedule, sp: u32) -> (Final, EventLog, Vec<
                 s.log.enters.push((b, *v));
             }
             if !rest.is_empty() && s.last_ccr & 0x80 != 0 {
-                let c = s.last_ccr;
-                s.findings.push(("accepted-while-masked".into(), format!("run loop iteration {}: request {:?} entered although CCR={:02x} has I set", b, rest, c)));
+                // I was set at the boundary where this iteration began. A run loop may also accept at
+                // the boundary where the iteration ENDS (after its instruction, e.g. an RTE that
+                // cleared I): then no handler instruction has run yet - PC is the vector target and
+                // the frame at SP holds the CCR of that boundary, which must have I clear.
+                let sp = cpu.er[7] & 0xff_ffff;
+                let frame_ccr = crate::mon::real_peek(cpu, sp).unwrap_or(0xff);
+                let at_target = rest.iter().any(|v| targets2.get(v).copied() == Some(cpu.verif_pc()));
+                if !(at_target && frame_ccr & 0x80 == 0) {
+                    let c = s.last_ccr;
+                    s.findings.push(("accepted-while-masked".into(), format!("run loop iteration {}: request {:?} entered although CCR={:02x} has I set (stacked CCR {:02x})", b, rest, c, frame_ccr)));
+                }
             }
             if rest.len() > 1 {
                 s.findings.push(("queue-accounting".into(), format!("run loop iteration {}: {} requests left the queue in one iteration", b, rest.len())));
